@@ -33,6 +33,9 @@ func ingressBubble(c *explore.Ctx, pc *world.ProducerChain) (out outcome) {
 	root := filepath.Join(os.TempDir(), fmt.Sprintf("c02-l2-%d-%d", os.Getpid(), rootSeq.Add(1)))
 	defer os.RemoveAll(root)
 	p2p := c.Choose("config", 2) == 1
+	// ahead: the DA layer already holds everything when the node starts (a node syncing from behind): the scan runs
+	// ahead of the sync loop through all heights and the event queues fill up
+	ahead := c.Choose("config", 2) == 1
 	hs := &world.P2PStore[*types.SignedHeader]{}
 	ds := &world.P2PStore[*types.Data]{}
 	type placed struct {
@@ -61,7 +64,7 @@ func ingressBubble(c *explore.Ctx, pc *world.ProducerChain) (out outcome) {
 	for _, b := range blobs {
 		layout = append(layout, fmt.Sprintf("%s@%d", b.name, b.at))
 	}
-	out.trace = append(out.trace, "DA:"+strings.Join(layout, ","), fmt.Sprintf("p2p=%v", p2p))
+	out.trace = append(out.trace, "DA:"+strings.Join(layout, ","), fmt.Sprintf("p2p=%v ahead=%v", p2p, ahead))
 	p := world.Params{InitialHeight: pc.Initial, DAStartHeight: 1, RootDir: root}
 	restarts := 0
 	var f *world.FullL2
@@ -161,13 +164,25 @@ func ingressBubble(c *explore.Ctx, pc *world.ProducerChain) (out outcome) {
 		}
 		return check(false)
 	}
-	for da := uint64(1); da <= maxDA; da++ {
-		for _, b := range blobs {
-			if b.at == da {
-				env.DA.Place(da, b.blob)
+	if ahead {
+		for da := uint64(1); da <= maxDA; da++ {
+			for _, b := range blobs {
+				if b.at == da {
+					env.DA.Place(da, b.blob)
+				}
 			}
 		}
-		env.DA.SetTip(da)
+		env.DA.SetTip(maxDA)
+	}
+	for da := uint64(1); da <= maxDA; da++ {
+		if !ahead {
+			for _, b := range blobs {
+				if b.at == da {
+					env.DA.Place(da, b.blob)
+				}
+			}
+			env.DA.SetTip(da)
+		}
 		if p2p && int(da) <= pc.Len() { // the P2P stores grow one block per DA block (they are contiguous)
 			for hs.Height() < pc.Initial+uint64(da)-1 {
 				i := int(hs.Height() + 1 - pc.Initial)
